@@ -157,15 +157,19 @@ def main():
                               src="LexLinkQuerySelect.lean"))
         f.write("section\nvariable {d : Gen.D} {K : QKit}\n\n" + "\n\n".join(s) + "\n\nend\nend LL2\n")
     # ---- main: the recursion lemmas; good_S / join_rec / ords_rec / good_E are spliced from the .in file
-    skipM = {"good_S", "good_E", "good_all", "good_expr", "good_query", "join_rec", "ords_rec", "lv_nil", "lv_cons", "lv_append"}
+    skipM = {"good_S", "good_all", "good_expr", "good_query", "join_rec", "joins_rec", "ords_rec", "un_rec", "good_Q", "lv_nil", "lv_cons",
+             "lv_append"}
     m = derive("LexLinkQueryMain.lean", skipM, dirty)
     if not os.path.exists(os.path.join(LEM, "LexLinkQ2M.lean.in")):
         return
     frag = open(os.path.join(LEM, "LexLinkQ2M.lean.in")).read()
     pre = [c for c in m if c.startswith("theorem isSubQ_frag")]
-    rest = [c for c in m if not c.startswith("theorem isSubQ_frag")]
+    goodE = [c for c in m if "theorem good_E" in c]
+    rest = [c for c in m if not c.startswith("theorem isSubQ_frag") and "theorem good_E" not in c]
+    frag, cases = frag.split("--8<-- good_E cases\n")
+    cases, tail = cases.split("--8<-- after the section\n")
     with open(os.path.join(LEM, "LexLinkQ2M.lean"), "w") as f:
-        f.write(HEADER.format(imp="LexLinkQ2S", title="The lexer link for the larger fragment: the mutual induction", src="LexLinkQueryMain.lean"))
+        f.write(HEADER.format(imp="LexLinkQ2G", title="The lexer link for the larger fragment: the mutual induction", src="LexLinkQueryMain.lean"))
         f.write("\n\n".join(pre) + "\n\n")
         f.write("section\nvariable {d : Gen.D} {K : QKit} {n : Nat} (hK : QW2 K)\n"
                 "  (ihE : ∀ e, szE4 e ≤ n → FragE4 d e = true → Lv2 d K (leavesE4 e) → GE4 d K e)\n"
@@ -173,7 +177,7 @@ def main():
         # the derived recursion lemmas call each other with `ihE ihQ`: add hK
         body = "\n\n".join(rest)
         body = re.sub(r"\b(\w+_rec|good_S) ihE ihQ", r"\1 hK ihE ihQ", body)
-        f.write(body + "\n\n" + frag + "\nend LL2\n")
+        f.write(body + "\n\n" + frag + "\n" + re.sub(r"\b(\w+_rec|good_S) ihE ihQ", r"\1 hK ihE ihQ", goodE[0]).rstrip("\n") + "\n" + cases + "\nend\n\n" + tail + "\nend LL2\n")
 
 if __name__ == "__main__":
     main()
